@@ -303,13 +303,33 @@ Definition prune_fleq (x y : fview) (c : fctx) : option fctx :=
   | Some c1 => fv_set_min y (fv_min x (fst c1)) c1
   end.
 Definition mk_fleq (x y : fview) : fprop := mkfprop (prune_fleq x y) (under_list x ++ under_list y).
-(* LessThan::prune (props/leq.rs, after the repair "strict comparison of an integer view with a float variable"):
-   x < y is x.next() <= y, except for an integer-valued x below a float VARIABLE y, where it is x <= y.prev().
-   prune_flt_prefix is the encoding before the repair (always x.next() <= y), kept for mixed_strict_prefix_refuted. *)
+(* LessThan::prune (props/leq.rs, after the repairs "strict comparison of an integer view with a float variable" and
+   "... with a float constant"):
+   x < y is x.next() <= y, except
+     - for an integer-valued x below a float VARIABLE y, where it is x <= y.prev();
+     - for an integer-valued x below a float CONSTANT c (a float-typed view without underlying variable), where the integer
+       side is bounded directly: x <= ceil(c) - 1 (fails when no i32 lies below c, or c is NaN; `as i32` saturates upwards);
+     - for a float CONSTANT c below an integer-valued y: y >= floor(c) + 1 (mirror image).
+   prune_flt_prefix is the encoding before the first repair (always x.next() <= y), kept for mixed_strict_prefix_refuted;
+   prune_flt_prefix_const the one between the two repairs, kept for strict_int_const_prefix_refuted. *)
 Definition int_below_float_var (x y : fview) (s : fstore) : bool :=
   negb (fv_is_float x s) && fv_is_float y s && (match fv_under y with Some _ => true | None => false end).
-Definition prune_flt (x y : fview) (c : fctx) : option fctx :=
+Definition fv_is_const (w : fview) : bool := match fv_under w with Some _ => false | None => true end.
+Definition int_below_float_const (x y : fview) (s : fstore) : bool :=
+  negb (fv_is_float x s) && fv_is_float y s && fv_is_const y.
+Definition float_const_below_int (x y : fview) (s : fstore) : bool :=
+  fv_is_float x s && fv_is_const x && negb (fv_is_float y s).
+Definition prune_flt_prefix_const (x y : fview) (c : fctx) : option fctx :=
   if int_below_float_var x y (fst c) then prune_fleq x (FPrev y) c else prune_fleq (FNext x) y c.
+Definition prune_flt (x y : fview) (c : fctx) : option fctx :=
+  if int_below_float_var x y (fst c) then prune_fleq x (FPrev y) c
+  else if int_below_float_const x y (fst c) then
+    let b := fsub (fceil (as_f (fv_max y (fst c)))) c_one in
+    if fge b (f64_of_Z i32_lo) then fv_set_max x (VlI (to_i32 b)) c else None
+  else if float_const_below_int x y (fst c) then
+    let b := fadd (ffloor (as_f (fv_min x (fst c)))) c_one in
+    if fle b (f64_of_Z i32_hi) then fv_set_min y (VlI (to_i32 b)) c else None
+  else prune_fleq (FNext x) y c.
 Definition prune_flt_prefix (x y : fview) (c : fctx) : option fctx := prune_fleq (FNext x) y c.
 Definition mk_flt (x y : fview) : fprop := mkfprop (prune_flt x y) (under_list x ++ under_list y).   (* less_than *)
 Definition mk_fgeq (x y : fview) : fprop := mk_fleq y x.               (* greater_than_or_equals *)
